@@ -30,7 +30,7 @@ def lineCount (input : Bytes) : Nat := 1 + (input.filter (· == 10)).length
 theorem err_pos_in_input (pf : Bytes → Option UInt64) (input : Bytes) (pos : Nat)
     (h : parseSource pf input = .error (.err pos)) : pos ≤ input.length := by
   unfold parseSource at h
-  obtain ⟨is, hl, _, hb⟩ := lex_items input false
+  obtain ⟨is, hl, _, hb, _⟩ := lex_items input false
   rw [hl] at h
   rcases parse_err_at_token pf is pos h with h0 | ⟨it, hm, hp⟩
   · omega
@@ -48,13 +48,15 @@ theorem err_line_in_range (pf : Bytes → Option UInt64) (input : Bytes) (pos : 
     exact hsub.length_le
   omega
 
-/-- every failure of `parse.SoyFile` is a runtime panic or an error positioned in this file -/
+/-- every failure of `parse.SoyFile` is an error positioned in this file: it does not panic
+    (`parse_source_no_panic`), it terminates (`parse_source_total`), and the position lies
+    inside the input -/
 theorem err_in_this_file (pf : Bytes → Option UInt64) (input : Bytes) (e : FErr)
     (h : parseSource pf input = .error e) :
-    e = .panic ∨ ∃ pos, e = .err pos ∧ pos ≤ input.length := by
+    ∃ pos, e = .err pos ∧ pos ≤ input.length := by
   cases e with
-  | err pos => exact Or.inr ⟨pos, rfl, err_pos_in_input pf input pos h⟩
-  | panic => exact Or.inl rfl
+  | err pos => exact ⟨pos, rfl, err_pos_in_input pf input pos h⟩
+  | panic => exact absurd h (parse_source_no_panic pf input)
   | fuelOut => exact absurd h (parse_source_total pf input)
 
 end SoyVerif.Props.C19
